@@ -1,0 +1,27 @@
+//go:build verif
+
+package kernel
+
+import (
+	"github.com/MixinNetwork/mixin/storage"
+)
+
+// VerifNewTopoNode builds a Node that carries only the persistent store and
+// the topology counter, initialised by the real getTopologyCounter (from the
+// last stored snapshot), so that the verification harness can drive the real
+// TopoWrite.  VerifStopTopo ends the statistics goroutine it starts.
+func VerifNewTopoNode(store storage.Store) *Node {
+	node := &Node{persistStore: store, done: make(chan struct{})}
+	node.TopoCounter = node.getTopologyCounter(store)
+	return node
+}
+
+func (node *Node) VerifStopTopo() { close(node.done) }
+
+// VerifSetTopoSeq overwrites the in-memory counter (to reach the situation of
+// a counter that lags behind the stored index).
+func (node *Node) VerifSetTopoSeq(seq uint64) {
+	node.TopoCounter.Lock()
+	defer node.TopoCounter.Unlock()
+	node.TopoCounter.seq = seq
+}
